@@ -782,3 +782,130 @@ Section OpRename2.
     apply restore_order_rename. exact S.
   Qed.
 End OpRename2.
+
+(* ================================================================================== *)
+(* A third whole entry point: Grid.cumsum (Model/Cumsum.grid_cumsum)                  *)
+(* ================================================================================== *)
+From XV Require Import Model.Cumsum.
+
+Section CumsumRename.
+  Variable r ra : string -> string.
+  Hypothesis r_inj : injective r.
+  Hypothesis ra_inj : injective ra.
+  Context {A : Type} (o : Ops A).
+
+  Definition rename_callcs (c : callcs (A:=A)) : callcs (A:=A) :=
+    {| cs_axes := map ra (cs_axes c); cs_to := rename_kw ra (cs_to c);
+       cs_boundary := rename_kw ra (cs_boundary c); cs_fill := rename_kw ra (cs_fill c) |}.
+
+  Lemma rename_dim_rename_r d d' (t : tensor A) : respects t ->
+    teq (rename_dim (r d) (r d') (rename_tensor r t)) (rename_tensor r (rename_dim d d' t)).
+  Proof.
+    intros R. split.
+    - cbn [rename_dim rename_tensor dims]. unfold size. cbn [rename_tensor dims].
+      rewrite (dsize_rename r r_inj). apply (dreplace_rename r r_inj).
+    - intros e. cbn [rename_dim rename_tensor get]. apply R. intros x. apply (upd_rename r r_inj).
+  Qed.
+
+  Lemma rename_dim_teq d d' (t1 t2 : tensor A) : teq t1 t2 -> teq (rename_dim d d' t1) (rename_dim d d' t2).
+  Proof.
+    intros [H1 H2]. split.
+    - cbn [rename_dim dims]. unfold size. rewrite H1. reflexivity.
+    - intros e. cbn [rename_dim get]. apply H2.
+  Qed.
+
+  Lemma respects_rename_dim d d' (t : tensor A) : respects t -> respects (rename_dim d d' t).
+  Proof.
+    intros R e e' H. cbn [rename_dim get]. apply R. intros x. unfold upd. rewrite (H d').
+    destruct (String.eqb x d); [reflexivity | apply H].
+  Qed.
+
+  Lemma size_teq d (t1 t2 : tensor A) : teq t1 t2 -> size d t1 = size d t2.
+  Proof. intros [H _]. unfold size. rewrite H. reflexivity. Qed.
+
+  Lemma size_rename d (t : tensor A) : size (r d) (rename_tensor r t) = size d t.
+  Proof. unfold size. cbn [rename_tensor dims]. apply (dsize_rename r r_inj). Qed.
+
+  Lemma pad_teq_gen (g : grid A) (t1 t2 : tensor A) bw b f : teq t1 t2 ->
+    match pad (zero o) g t1 bw b f, pad (zero o) g t2 bw b f with
+    | Ok a1, Ok a2 => teq a1 a2 | Err e1, Err e2 => e1 = e2 | _, _ => False end.
+  Proof.
+    intros T. unfold pad. destruct (negb _); [reflexivity|].
+    destruct bw as [ws|]; [|exact T]. destruct (forallb _ ws); [exact T|].
+    destruct T as [Hd Hg]. rewrite Hd. destruct (resolve_all _ _ _ _ _ ws) as [ps|e]; cbn [bind]; [|reflexivity].
+    assert (T : teq t1 t2) by (split; assumption). clear Hd Hg.
+    revert t1 t2 T. induction ps as [|q ps IH]; intros t1 t2 T; [exact T|].
+    unfold pad_dims. cbn [fold_left]. apply IH. apply (pad_dim_teq (zero o)). exact T.
+  Qed.
+
+  Lemma cumsum_step_rename tbl (g : grid A) dssizes c orig (t t' : tensor A) axn :
+    respects t -> teq t' (rename_tensor r t) ->
+    rel_res r (cumsum_step o tbl (rename_grid r ra g) (rename_dims r dssizes) (rename_callcs c) (map r orig) t' (ra axn))
+            (cumsum_step o tbl g dssizes c orig t axn) /\
+    (forall u, cumsum_step o tbl g dssizes c orig t axn = Ok u -> respects u).
+  Proof.
+    intros R H. unfold cumsum_step. cbn [rename_callcs cs_to cs_boundary cs_fill].
+    unfold rename_grid at 1. rewrite (find_axis_rename r ra ra_inj g axn).
+    destruct (find_axis g axn) as [a|e]; [|split; [reflexivity | discriminate]]. cbn [bind].
+    rewrite (get_position_name_rename r r_inj ra a orig).
+    destruct (get_position_name a orig) as [[from dim]|e]; [|split; [reflexivity | discriminate]]. cbn [bind fst snd].
+    rewrite (target_pos_rename r ra ra_inj a (cs_to c) from).
+    destruct (target_pos a (cs_to c) from) as [tp|e]; [|split; [reflexivity | discriminate]]. cbn [bind].
+    destruct (lookup_shift (from, tp) tbl) as [[trim w]|]; [|split; [reflexivity | discriminate]].
+    (* the cumsummed (and trimmed) arrays *)
+    set (d1 := map_dim (zero o) dim dim (size dim t) (GridOps.cumsum o) t).
+    set (d1' := map_dim (zero o) (r dim) (r dim) (size (r dim) t') (GridOps.cumsum o) t').
+    assert (S1 : size (r dim) t' = size dim t) by (rewrite (size_teq (r dim) t' _ H); apply size_rename).
+    assert (T1 : teq d1' (rename_tensor r d1)).
+    { unfold d1', d1. rewrite S1. eapply teq_trans; [apply (map_dim_teq (zero o)); exact H|].
+      apply (map_dim_rename_r r r_inj (zero o)). exact R. }
+    assert (R1 : respects d1) by (apply (respects_map_dim (zero o)); exact R).
+    set (d2 := if trim then map_dim (zero o) dim dim (size dim t - 1) (@removelast A) d1 else d1).
+    set (d2' := if trim then map_dim (zero o) (r dim) (r dim) (size (r dim) t' - 1) (@removelast A) d1' else d1').
+    assert (T2 : teq d2' (rename_tensor r d2)).
+    { unfold d2', d2. destruct trim; [|exact T1]. rewrite S1.
+      eapply teq_trans; [apply (map_dim_teq (zero o)); exact T1|].
+      apply (map_dim_rename_r r r_inj (zero o)). exact R1. }
+    assert (R2 : respects d2) by (unfold d2; destruct trim; [apply (respects_map_dim (zero o)) | ]; exact R1).
+    pose proof (pad_rename r ra r_inj ra_inj (zero o) g d2 (Some [(axn, w)]) (cs_boundary c) (cs_fill c) R2) as PR.
+    cbn [option_map rename_widths rename_keys map fst snd] in PR.
+    pose proof (pad_teq_gen (rename_grid r ra g) d2' (rename_tensor r d2) (Some [(ra axn, w)])
+                            (rename_kw ra (cs_boundary c)) (rename_kw ra (cs_fill c)) T2) as PT.
+    destruct (pad (zero o) (rename_grid r ra g) d2' _ _ _) as [p'|e'];
+      destruct (pad (zero o) (rename_grid r ra g) (rename_tensor r d2) _ _ _) as [p2|e2]; try contradiction;
+      destruct (pad (zero o) g d2 _ _ _) as [p|e] eqn:Ep; try contradiction; cbn [bind];
+      [|split; [cbn [rel_res]; congruence | discriminate]].
+    assert (TP : teq p' (rename_tensor r p)) by (eapply teq_trans; eassumption).
+    assert (RP : respects p) by (eapply (respects_pad o); eassumption).
+    cbn [rename_axis ax_coords]. rewrite (lookupP_rename r tp (ax_coords a)).
+    destruct (lookupP tp (ax_coords a)) as [newdim|]; [|split; [reflexivity | discriminate]]. cbn [option_map bind].
+    assert (TR : teq (rename_dim (r dim) (r newdim) p') (rename_tensor r (rename_dim dim newdim p))).
+    { eapply teq_trans; [apply rename_dim_teq; exact TP | apply rename_dim_rename_r; exact RP]. }
+    rewrite (size_teq (r newdim) _ _ TR), size_rename, (dsize_rename r r_inj newdim dssizes).
+    destruct (negb (size newdim (rename_dim dim newdim p) =? dsize newdim dssizes)); [split; [reflexivity | discriminate]|].
+    split; [exact TR|]. intros u Hu. inversion Hu; subst. apply respects_rename_dim. exact RP.
+  Qed.
+
+  Lemma cumsum_steps_rename tbl (g : grid A) dssizes c orig axes : forall (t t' : tensor A),
+    respects t -> teq t' (rename_tensor r t) ->
+    rel_res r (cumsum_steps o tbl (rename_grid r ra g) (rename_dims r dssizes) (rename_callcs c) (map r orig) t' (map ra axes))
+            (cumsum_steps o tbl g dssizes c orig t axes).
+  Proof.
+    induction axes as [|axn axes IH]; intros t t' R H; [exact H|].
+    cbn [map cumsum_steps].
+    destruct (cumsum_step_rename tbl g dssizes c orig t t' axn R H) as [S RS].
+    destruct (cumsum_step o tbl (rename_grid r ra g) (rename_dims r dssizes) (rename_callcs c) (map r orig) t' (ra axn)) as [u'|e'];
+      destruct (cumsum_step o tbl g dssizes c orig t axn) as [u|e]; cbn [rel_res] in S; try contradiction; cbn [bind].
+    - apply IH; [apply RS; reflexivity | exact S].
+    - subst. reflexivity.
+  Qed.
+
+  Theorem grid_cumsum_rename tbl (g : grid A) dssizes c (t : tensor A) :
+    respects t ->
+    rel_res r (grid_cumsum o tbl (rename_grid r ra g) (rename_dims r dssizes) (rename_callcs c) (rename_tensor r t))
+            (grid_cumsum o tbl g dssizes c t).
+  Proof.
+    intros R. unfold grid_cumsum. cbn [rename_tensor dims rename_callcs cs_axes]. rewrite (dnames_rename r).
+    apply cumsum_steps_rename; [exact R | apply teq_refl].
+  Qed.
+End CumsumRename.
